@@ -35,8 +35,8 @@ RULE = (
     "only if it wraps ValueError), a ValueError from scriptplan/parser, or an error message followed by SystemExit(1) "
     "- or accepts; for accepted input schedule() returns without exception within a CPU-time bound (cases over 20 s "
     "are re-run alone after the campaign: parsing more than 40 s twice, or schedule() needing more than 60 s + 5 ms "
-    "x slots x leaves x scenarios of the horizon it scheduled, is a violation; runs that exceed a 400 s budget "
-    "below their allowance are inconclusive) and every "
+    "x slots x leaves x scenarios of the horizon it scheduled, is a violation; cases whose allowance exceeds the "
+    "400 s budget of a re-run are inconclusive) and every "
     "leaf task is scheduled with project start <= start <= end <= effective project end, or unscheduled with a "
     "warning on stderr. Failures are bucketed by (exception type, innermost scriptplan module:function). Non-trivial: "
     "accepted-and-infeasible (>= 1 unscheduled leaf) or rejected after the project header. Distinct = distinct text."
@@ -132,25 +132,37 @@ def solitary_verdict(text):
         leaves = sum(1 for t in project.tasks if t.leaf())
         return 60.0 + PER_UNIT * slots * max(1, leaves) * max(1, project.scenarioCount()), slots, leaves
 
+    # stage 1: the constant part of the allowance.  The horizon is extended at the start of schedule(), so the
+    # size of what is being scheduled is known even when the timer fires.
     try:
-        fin, _v, cpu = _under_timer(RUN_BUDGET, do_schedule)
+        fin, _v, cpu = _under_timer(60.0, do_schedule)
     except BaseException as e:  # noqa: BLE001
         return None, f"re-run alone: schedule raised {type(e).__name__} (inconclusive for the time bound)"
     try:
-        allow, slots, leaves = allowance()  # the horizon is extended at the start of schedule(): known even after a timeout
+        allow, slots, leaves = allowance()
     except Exception:  # noqa: BLE001
         return None, "re-run alone: size of the scheduled horizon not available (inconclusive)"
-    if not fin and allow >= RUN_BUDGET:
-        return None, f"not finished within {RUN_BUDGET:.0f}s CPU alone; allowance for {slots:.0f} slots x {leaves} leaves is {allow:.0f}s (inconclusive)"
-    if not fin or cpu > allow:
-        return (f"schedule() used {'more than ' if not fin else ''}{cpu:.0f} s CPU alone; allowance for its size "
-                f"({slots:.0f} slots, {leaves} leaves, {project.scenarioCount()} scenarios) is {allow:.0f} s"), ""
+    if fin:
+        return None, f"slow but finished in {cpu:.1f}s CPU when re-run alone (allowance {allow:.0f}s; not a violation)"
+    if allow >= RUN_BUDGET:
+        return None, f"not finished within 60s CPU alone; allowance for {slots:.0f} slots x {leaves} leaves is {allow:.0f}s, beyond the budget of a re-run (inconclusive)"
+    # stage 2: a project of modest size that still needs more than a minute - run it again with its full allowance
+    try:
+        fin, project, _c = _under_timer(PARSE_LIMIT, do_parse)
+        if not fin:
+            return None, "re-run alone: second parse slow (inconclusive)"
+        fin, _v, cpu = _under_timer(allow, do_schedule)
+    except BaseException as e:  # noqa: BLE001
+        return None, f"re-run alone: {type(e).__name__} in the second run (inconclusive for the time bound)"
+    if not fin:
+        return (f"schedule() used more than {allow:.0f} s CPU alone, the allowance for its size "
+                f"({slots:.0f} slots, {leaves} leaves, {project.scenarioCount()} scenarios)"), ""
     return None, f"slow but finished in {cpu:.1f}s CPU when re-run alone (allowance {allow:.0f}s; not a violation)"
 
 
 def confirm_timeouts(out, seed, shard):
     """Solitary, phase-split re-runs of the (two smallest) timeout candidates; see solitary_verdict."""
-    cands = sorted(set(TIMEOUT_CANDIDATES), key=len)[:2]
+    cands = sorted(set(TIMEOUT_CANDIDATES), key=len)[: (1 if os.environ.get("VERIF_TIER", "quick") == "quick" else 2)]
     del TIMEOUT_CANDIDATES[:]
     for text in cands:
         detail, note = solitary_verdict(text)
@@ -287,7 +299,7 @@ HOSTILE_LINES = [
     "start 2019-01-01", "start 2031-06-01", "end 2019-01-01", "end 2031-06-01", "end 2025-01-07-10:00",
     "limits { dailymax 0h }", "limits { weeklymax 0.1h }", "allocate nosuchres", "responsible r0",
     "allocate r0 { alternative r1 }", "allocate r1", "allocate r0, r1 { alternative r2 select minloaded }", "allocate r0 { persistent }",
-    "effort 4h", "duration 0.5h", "start 2025-01-06-00:07", "end 2025-01-06",
+    "effort 4h", "start 2025-01-09 end 2025-01-07", "milestone start 2025-01-08-08:01 end 2025-01-07-10:00", "end 2025-01-07 start 2025-01-07-00:01", "duration 0.5h", "start 2025-01-06-00:07", "end 2025-01-06",
 ]
 BAD_ZONES = ["Europe/", "Europe//Berlin", "/Europe/Berlin", "../UTC", "zone.tab", "", " ", "Mars/Olympus", "UTC+25", "europe/berlin", "Europe/Berlin\\", "E" * 300]
 HOSTILE_DEP_OPTS = ["gaplength 2d", "gaplength 500h", "maxgapduration 1h", "gapduration 2000h", "onend", "gapduration 0min", "gaplength 0h", "gapduration 99999999h",
